@@ -313,4 +313,83 @@ Section B.
              eexists. split; [|left]. 2:{ unfold go_up at 1. unfold go_up. rewrite S2. cbn. reflexivity. }
              apply same_kind_add_kid.
   Qed.
+
+  (* ---------------------------------------------------------------- a whole document *)
+
+  (* what Expat delivers before the root element *)
+  Definition prolog_any (e : event) : Prop :=
+    match e with EvXmlDecl _ _ | EvStartDoctype _ _ _ | EvEndDoctype | EvPi _ _ => True | _ => False end.
+
+  Lemma prolog_any_run c evs :
+    Forall prolog_any evs ->
+    let c' := run c evs in
+    c_spine c' = c_spine c /\ c_root c' = c_root c /\ c_error c' = c_error c /\ c_skip_lvl c' = c_skip_lvl c.
+  Proof.
+    intros F. revert c. induction F as [|e r He F IH]; intros c; [cbn; auto|].
+    rewrite run_cons. cbv zeta in *. destruct (IH (step c e)) as (A1 & A2 & A3 & A4). rewrite A1, A2, A3, A4.
+    destruct e; try contradiction; cbn; auto.
+    - destruct (step_decl_fields main sub input c (EvXmlDecl version encoding)) as (R & S & E & L & _). auto.
+    - destruct (step_decl_fields main sub input c (EvStartDoctype name sysid pubid)) as (R & S & E & L & _). auto.
+  Qed.
+
+  Lemma pi_run c evs : Forall is_pi evs -> run c evs = c.
+  Proof.
+    intros F. revert c. induction F as [|e r He F IH]; intros c; [reflexivity|].
+    destruct e; try contradiction. rewrite run_cons. cbn. apply IH.
+  Qed.
+
+  (* prolog, root element with balanced content, epilog: unless an error is recorded, `current` is the root element
+     again at the end (the C leaves it there rather than at NULL) and nothing is being skipped *)
+  Theorem document_balance prolog root attrs i i' body epilog :
+    Forall prolog_any prolog -> balanced body -> Forall is_pi epilog ->
+    N.of_nat (List.length body) + 1 < 4294967296 ->
+    let c' := run init_ctx (prolog ++ EvStartElement root attrs i :: body ++ EvEndElement root i' :: epilog) in
+    failed c' \/ (c_skip_lvl c' = 0 /\ exists f, c_spine c' = [f] /\ is_cdata_frame f = false).
+  Proof.
+    intros FP HB FE LEN. cbv zeta. rewrite run_app, run_cons, run_app, run_cons, (pi_run _ epilog FE).
+    destruct (prolog_any_run init_ctx prolog FP) as (S0 & R0 & E0 & K0). cbn in S0, R0, E0, K0.
+    set (c0 := run init_ctx prolog) in *.
+    change (step c0 (EvStartElement root attrs i)) with (on_start_element main c0 root attrs i).
+    unfold on_start_element. rewrite E0, K0, S0. cbn [negb N.eqb WBXML_OK N.ltb N.compare].
+    set (c1 := match c_lang c0 with
+               | Some _ => c0
+               | None => match search_table main None None (Some (str root)) with
+                         | Some l => set_lang c0 (Some l)
+                         | None => set_error c0 E_UNKNOWN_XML_LANGUAGE
+                         end
+               end).
+    assert (H1 : failed c1 \/ (c_error c1 = WBXML_OK /\ c_spine c1 = [] /\ c_root c1 = None /\ c_skip_lvl c1 = 0 /\ c_lang c1 <> None)).
+    { subst c1. destruct (c_lang c0) eqn:L; [right; rewrite L; repeat split; auto; discriminate|].
+      destruct (search_table main None None (Some (str root))); [right; cbn; repeat split; auto; discriminate|left; unfold failed; cbn; discriminate]. }
+    destruct H1 as [X|(E1 & S1 & R1 & K1 & L1)].
+    { left. rewrite (failed_eqb _ X). now apply error_never_cleared_step, error_never_cleared. }
+    rewrite (ok_eqb _ E1), S1. rewrite andb_false_r. cbn [List.length N.of_nat].
+    change (WBXML_MAX_NESTING_DEPTH <=? 0) with false. cbv iota.
+    destruct (c_lang c1) as [l|]; [|now elim L1].
+    destruct (resolve_tag l root) as [tag page].
+    unfold push_frame. cbn [c_spine c_root set_page]. rewrite S1, R1.
+    set (new := mk_frame (FElt tag (map (resolve_attr l) attrs) None) []).
+    set (c2 := set_spine (set_page c1 page) [new]).
+    pose proof (balanced_cont body HB c2 new [] eq_refl) as P. cbn [c_skip_lvl c2 set_spine set_page] in P. rewrite K1 in P.
+    assert (LEN' : N.of_nat (List.length body) + 0 < 4294967296) by lia. specialize (P LEN').
+    set (c3 := run c2 body) in *.
+    change (step c3 (EvEndElement root i')) with (on_end_element main sub input c3 root i'). unfold on_end_element.
+    destruct P as [X|(K3 & new' & SK & [S3|(_ & _ & UP & _)])]; [| |now elim UP].
+    { left. rewrite (failed_eqb _ (flush_binary_error_nonzero c3 X)). now apply flush_binary_error_nonzero. }
+    destruct (flush_post c3 new' [] S3) as [X|(E4 & K4 & _ & _ & new'' & SK' & S4 & _)]; [left; now rewrite (failed_eqb _ X)|].
+    rewrite (ok_eqb _ E4). rewrite K4, K3. cbn [N.ltb N.compare]. unfold leave_current. rewrite S4.
+    right. split; [now rewrite K4|]. exists new''. split; [exact S4|].
+    rewrite (same_kind_cdata _ _ SK'), (same_kind_cdata _ _ SK). reflexivity.
+  Qed.
 End B.
+
+(* ---------------------------------------------------------------- the nested parse is the function itself *)
+
+Lemma tree_from_xml_inr_nonzero main sub input evs ok : tree_from_xml main sub input evs ok <> inr WBXML_OK.
+Proof.
+  unfold tree_from_xml. destruct input; [discriminate|]. destruct ok; cbn; [|discriminate].
+  destruct (c_error _ =? WBXML_OK) eqn:E; cbn; [discriminate|]. intros X. injection X as X. rewrite X in E. discriminate.
+Qed.
+
+Lemma tree_from_xml_fuel_inr_nonzero main expat fuel input : tree_from_xml_fuel main expat fuel input <> inr WBXML_OK.
+Proof. destruct fuel; cbn [tree_from_xml_fuel]; apply tree_from_xml_inr_nonzero. Qed.
